@@ -44,7 +44,8 @@ pub fn gen_prf_in(r: &mut Rng, hashed: bool, allow_by_cred: bool) -> PrfIn {
         let n = r.range(1, 2);
         // distinct credentials per key: keys decoding to the same id would make the winner
         // depend on hash-map order inside the library
-        Some((0..n).map(|i| (KeyRef::Cred(IdRef::NthOfRp(i as u32)), vals(r))).collect())
+        // (one key in six is the credential id in another valid spelling: padded, or the standard alphabet)
+        Some((0..n).map(|i| (if r.chance(1, 6) { KeyRef::Spelled(IdRef::NthOfRp(i as u32), r.range(1, 3) as u8) } else { KeyRef::Cred(IdRef::NthOfRp(i as u32)) }, vals(r))).collect())
     } else {
         None
     };
